@@ -107,6 +107,9 @@ func (c *netFD) connect(ctx context.Context, la, ra syscall.Sockaddr) (rsa sysca
 	// Do not need to call c.writing here,
 	// because c is not yet accessible to user,
 	// so no concurrent operations are possible.
+	if e := verifFault(vfltConnect, c.fd); e != 0 {
+		return nil, os.NewSyscallError("connect", e)
+	}
 	switch err := syscall.Connect(c.fd, ra); err {
 	case syscall.EINPROGRESS, syscall.EALREADY, syscall.EINTR:
 	case nil, syscall.EISCONN:
@@ -148,6 +151,9 @@ func (c *netFD) connect(ctx context.Context, la, ra syscall.Sockaddr) (rsa sysca
 		// details.
 		if err := c.pd.WaitWrite(ctx); err != nil {
 			return nil, err
+		}
+		if e := verifFault(vfltConnectSoError, c.fd); e != 0 {
+			return nil, os.NewSyscallError("connect", e)
 		}
 		nerr, err := syscall.GetsockoptInt(c.fd, syscall.SOL_SOCKET, syscall.SO_ERROR)
 		if err != nil {
